@@ -22,7 +22,7 @@ def field_of_self(body, c):
     return None
 
 
-def write_sites(facts, fnpath, _depth=0):
+def write_sites(facts, fnpath, _depth=0, may=False):
     """[(field, kind, detail, bb, idx, line)] writes through self in fn: kind in assign/call"""
     S = summ.summaries(facts)
     fn = facts.fns[fnpath]
@@ -45,8 +45,8 @@ def write_sites(facts, fnpath, _depth=0):
                         g = facts.fns.get(q)
                         if g is not None and g.impl_self_adt == fn.impl_self_adt and q != fnpath and _depth < 3:
                             # a helper of the same object called on self: its writes (on ITS every path) count here
-                            for w in write_sites(facts, q, _depth + 1):
-                                if w[0] and w[0] != '*' and on_every_path(g.body, w[3]):
+                            for w in write_sites(facts, q, _depth + 1, may):
+                                if w[0] and w[0] != '*' and (may or on_every_path(g.body, w[3])):
                                     out.append((w[0], w[1], w[2], m['bb'], 'term', t['line'], w[6]))
                         else:
                             out.append(('*', 'call', q or t['callee'].get('key'), m['bb'], 'term', t['line'], t))
@@ -92,7 +92,7 @@ def per_round_fields(facts, work_adt):
     for role in ('%s.add_original' % side, '%s.add_recovery' % side, '%s.begin' % side, '%s.undo' % side):
         p = R.fn.get(role)
         if p:
-            for w in write_sites(facts, p):
+            for w in write_sites(facts, p, 0, True):       # what an add MAY write is per-round state (a helper that returns early too)
                 if w[0]:
                     out.setdefault(w[0], []).append((p, w[5]))
     return out
